@@ -222,19 +222,21 @@ class BatchWorld(World):
                 cc = dict(c, B=bb)
                 conns, neurons = L._components(cc)
                 layer = L._layer(cc, conns, neurons)
-                layer.eval()
+                layer.train(c.get("freeze") == "kwargs")     # adaptation frozen by eval mode, or by adapt=False kwargs in training mode
                 built.append((cc, conns, neurons, layer))
         ctx.log("config", "layer", c["kind"], c.get("combine"), B)
         nsp = 0
 
+        nkw = {"adapt": False} if c.get("freeze") == "kwargs" else None
+
         def run(item, xs):
             cc, conns, neurons, layer = item
             if c["kind"] == "serial":
-                return [layer(xs[0])]
+                return [layer(xs[0], neuron_kwargs=nkw)]
             if c["kind"] == "biclique":
-                r = layer({f"c{i}": (x,) for i, x in enumerate(xs)})
+                r = layer({f"c{i}": (x,) for i, x in enumerate(xs)}, neuron_kwargs=(None if nkw is None else {f"n{j}": nkw for j in range(len(neurons))}))
                 return [r[f"n{j}"] for j in range(len(neurons))]
-            return list(layer(xs[0]))
+            return list(layer(xs[0], feedfwd_neuron_kwargs=nkw, feedback_neuron_kwargs=nkw))
 
         for op in desc["ops"]:
             if op["op"] == "clear":
@@ -256,6 +258,13 @@ class BatchWorld(World):
                 self._cmp(ctx, dict(facts, group=j), f"layer output {j}", ob[j], [o[j] for o in os_])
             for j in range(len(built[0][2])):
                 self._cmp(ctx, dict(facts, group=j), f"neuron {j} voltage", built[0][2][j].voltage, [built[1 + b][2][j].voltage for b in range(B)])
+                if c.get("adaptive"):
+                    # adaptation is frozen in every replica: the (batch-reduced) adaptation state may not drift apart
+                    ab = built[0][2][j].threshold_adaptation
+                    for b in range(B):
+                        if not torch.equal(ab, built[1 + b][2][j].threshold_adaptation):
+                            ctx.fail("sample_interaction", dict(facts, what="frozen adaptation", group=j, sample=b),
+                                     f"neuron group {j}: adaptation of the batched replica {ab.flatten()[:4].tolist()} differs from sample {b} run alone although adaptation is frozen")
         ctx.nontrivial = nsp > 0
         ctx.state(("layer", c["kind"], c.get("combine"), B))
 
